@@ -275,9 +275,26 @@ void World::opBuild(const Item& op)
     else
     {
         bd.data = contentBytes(id, 0, n);
+        if (cls != wire::K_IFSTAT && !bd.data.empty())
+            applyDictionary(bd.data.data(), bd.data.size(), id);
         bd.vendor = contentBytes(id ^ 0x77777777u, 0, v);
     }
     const size_t fixed = wire::fixedSize(static_cast<wire::Kind>(cls));
+    if (op.get("near", 0) && slot.hasPrevBd)
+    {
+        // the previous step's content again with ONE byte changed (same lengths): "equal length but different content",
+        // where the difference may sit behind a zero byte, in the last byte, in the first
+        bd = slot.prevBd;
+        Bytes& tgt = (!bd.data.empty() && (op.get("nearpos", 0) & 1) == 0) || bd.vendor.empty() ? bd.data : bd.vendor;
+        if (!tgt.empty())
+        {
+            const int64_t np = op.get("nearpos", 0) >> 1;
+            const size_t pos = np < 0 ? tgt.size() - 1 : static_cast<size_t>(np) % tgt.size();
+            uint8_t x = static_cast<uint8_t>(op.get("nearx", 1));
+            tgt[pos] ^= x ? x : 1;
+            probe("setdata-one-byte-from-previous");
+        }
+    }
     if (op.get("same", 0))
     {
         // exactly the content the object already reports through its getters (idempotence; "re-sent with the same content")
@@ -313,6 +330,8 @@ void World::opBuild(const Item& op)
             probe("setdata-with-reported-content");
         }
     }
+    slot.prevBd = bd;
+    slot.hasPrevBd = true;
     Bytes before = slot.b->raw();
     if (op.get("via", 0) && !slot.fromWire)
     {
